@@ -135,6 +135,7 @@ type Session struct {
 	nextRetransmissionTime atomic.Int64  // time that need to retransmit a segment in sendBuf, in microseconds since Unix epoch
 	ackOnDataRecv          atomic.Bool   // whether ack should be sent due to receive of new data
 	unreadBuf              []byte        // payload removed from the recvQueue that haven't been read by application
+	recvTruncated          atomic.Bool   // remote closed the session before all of its earlier segments arrived
 
 	rttStat            *congestion.RTTStats
 	cubicSendAlgorithm *congestion.CubicSendAlgorithm
@@ -283,6 +284,9 @@ func (s *Session) Read(b []byte) (n int, err error) {
 			// Wait for incoming segments to fill the recvQueue.
 			select {
 			case <-s.closedChan:
+				if s.recvTruncated.Load() {
+					return 0, io.ErrUnexpectedEOF
+				}
 				return 0, io.EOF
 			case <-s.inputErr:
 				return 0, io.ErrUnexpectedEOF
@@ -1206,6 +1210,12 @@ func (s *Session) inputClose(seg *segment) error {
 		if err := s.output(seg2, s.RemoteAddr()); err != nil {
 			s.oLock.Unlock()
 			return fmt.Errorf("output() failed: %v", err)
+		}
+		// On packet transport the close request can arrive while earlier
+		// segments are still missing. They are never retransmitted after the
+		// remote closed, so the stream must not end with a clean EOF.
+		if s.transportProtocol == common.PacketTransport && seg.metadata.(*sessionStruct).seq > s.nextRecv.Load() {
+			s.recvTruncated.Store(true)
 		}
 		// Immediately shutdown event loop.
 		if seg.metadata.(*sessionStruct).statusCode == uint8(statusQuotaExhausted) {
